@@ -1875,7 +1875,7 @@ func runC02(args []string) error {
 	sm.Notes = append(sm.Notes,
 		fmt.Sprintf("%d code sites in %d programs; yaegi %.1fs; compiled-Go reference on %d programs %.1fs (the other programs are compared with the native oracle of the harness, itself compared with compiled Go on the reference shard: 0 differences); total %.1fs",
 			len(g.sites), len(progs), yaegiDur.Seconds(), len(refProgs), refDur.Seconds(), time.Since(t0).Seconds()),
-		"floating point and complex evaluations are decided by this enumeration only (validated against compiled Go, not proved)")
+		"complex evaluations and the statement contexts of floating point operators are decided by this enumeration (validated against compiled Go); the float operators themselves have a Coq denotation, see the float stream note")
 	// ---- floating point stream with a Coq denotation (c02_float.go)
 	if err := c02FloatStream(sm, *out, *tier, *seed); err != nil {
 		return err
